@@ -232,7 +232,12 @@ def parse_module(text):
                     p.next(); p.next(); p.next(); p.next(); continue
                 p.next()
             if alias:
-                t = p.type(); p.expect(','); t2 = p.type(); v = p.value(t2)
+                t = p.type(); p.expect(',')
+                if p.peek()[1] == 'bitcast':
+                    # alias T, bitcast (T2* @target to T*)   (e.g. a derived destructor aliased to the base one)
+                    p.next(); p.expect('('); t2 = p.type(); v = p.value(t2); p.expect('to'); p.type(); p.expect(')')
+                else:
+                    t2 = p.type(); v = p.value(t2)
                 m.aliases[name] = v
                 continue
             t = p.type()
@@ -988,6 +993,13 @@ class Emit:
             if n.startswith('llvm.' + nm):
                 c = s.sty(t) if sg else s.ctype(t)
                 return ['%s = ((%s)%s %s (%s)%s) ? %s : %s;' % (d, c, A[0], cop, c, A[1], A[0], A[1])]
+        if n.startswith(('llvm.fshl', 'llvm.fshr')):
+            # funnel shift: fshl(a, b, c) = high word of ((a:b) << (c mod w)); fshr = low word of ((a:b) >> (c mod w))
+            w = t.n; ct = s.ctype(t)
+            sh = '((%s) %% %du)' % (A[2], w)
+            if n.startswith('llvm.fshl'):
+                return ['%s = (%s == 0) ? (%s) %s : (%s) ((((%s) %s) << %s) | (((%s) %s) >> (%du - %s)));' % (d, sh, ct, A[0], ct, ct, A[0], sh, ct, A[1], w, sh)]
+            return ['%s = (%s == 0) ? (%s) %s : (%s) ((((%s) %s) >> %s) | (((%s) %s) << (%du - %s)));' % (d, sh, ct, A[1], ct, ct, A[1], sh, ct, A[0], w, sh)]
         if n.startswith('llvm.expect'): return ['%s = %s;' % (d, A[0])]
         if n.startswith('llvm.eh.typeid.for'): return ['%s = 1;' % d]
         if n.startswith('llvm.objectsize'): return ['%s = -1;' % d]
